@@ -223,6 +223,24 @@ class ExcFlow:
         r = EXC_ALIASES.get(r, r)
         if r in self.prog.classes or self.prog.known_class(r):
             return {r}
+        if r in self.prog.functions and isinstance(st.exc, ast.Call):
+            # raise make_error(...): the classes the factory returns (and whatever it raises itself)
+            g = self.prog.functions[r]
+            out: set[str] = set()
+            from .loader import walk_own as _walk_own
+
+            for x in _walk_own(g.node):
+                if isinstance(x, ast.Return) and x.value is not None:
+                    v = x.value.func if isinstance(x.value, ast.Call) else x.value
+                    dd = dotted(v)
+                    rr = self.prog.resolve_dotted(g.module, dd) if dd else None
+                    rr = EXC_ALIASES.get(rr, rr) if rr else None
+                    if rr and (rr in self.prog.classes or self.prog.known_class(rr)):
+                        out.add(rr)
+                    else:
+                        out.add("Exception")
+            out |= self._callee_escapes(r)
+            return out or {"Exception"}
         # raising a local variable (e.g. a stored exception): unknown Exception subclass
         if isinstance(e, ast.Name) and e.id[:1].islower():
             return {"Exception"}
